@@ -144,6 +144,12 @@ pub fn catalogue() -> Vec<Vec<Part>> {
         vec![Lit("/w(/"), Ex(E_ENUM), Lit(")")],
         vec![Lit("/w\\/"), Ex(E_BSLASH), Lit("/a")],
         vec![Lit("/w\\/"), Ex(E_BSLASH), Lit("/b")],
+        // a literal backslash immediately followed by a marker group
+        vec![Lit("/dir\\"), Ex(E_LOW), Lit("/a")],
+        vec![Lit("/dir\\"), Ex(E_LOW), Lit("/b")],
+        vec![Lit("/dir\\"), Ex(E_INT)],
+        vec![Lit("/d\\\\"), Ex(E_ENUM), Lit("\\x")],
+        vec![Lit("/d\\\\"), Ex(E_ENUM), Lit("\\y")],
     ]
 }
 
@@ -157,6 +163,18 @@ pub fn extended_catalogue() -> Vec<String> {
         "/x/(?:[^)]+)/z".to_string(),
         "/x/(?:[^)]+)/w".to_string(),
         "/x/(?:[(][0-9]+[)])".to_string(),
+        "/y/(?:[]()]+)a".to_string(),
+        "/y/(?:[]()]+)b".to_string(),
+        "/y/(?:[^]()]+)c".to_string(),
+        "/y/(?:[^]()]+)d".to_string(),
+        "/z/(?:[[:alpha:]()]+)a".to_string(),
+        "/z/(?:[[:alpha:]()]+)b".to_string(),
+        "/z/(?:[a-z&&[^()]]+)1".to_string(),
+        "/z/(?:[a-z&&[^()]]+)2".to_string(),
+        "/q/(?:[\\]()]+)a".to_string(),
+        "/q/(?:[\\]()]+)b".to_string(),
+        "/q/(?:[\\[(]+)c".to_string(),
+        "/q/(?:[\\[(]+)d".to_string(),
     ]
 }
 
@@ -815,6 +833,18 @@ pub fn run(ctx: &Ctx, _args: &Args) -> i32 {
                         "/x/(12)".to_string(),
                         "/x/".to_string(),
                         "/a/1".to_string(),
+                        "/y/()a".to_string(),
+                        "/y/]b".to_string(),
+                        "/y/xc".to_string(),
+                        "/y/xyd".to_string(),
+                        "/z/ab(a".to_string(),
+                        "/z/)b".to_string(),
+                        "/z/abc1".to_string(),
+                        "/z/x2".to_string(),
+                        "/q/](a".to_string(),
+                        "/q/)b".to_string(),
+                        "/q/[(c".to_string(),
+                        "/q/[d".to_string(),
                     ];
                     let case = Case {
                         ignore_case: j % 2 == 0,
